@@ -44,6 +44,14 @@ def gen_ops(rng, tier):
         if ss in (2, 5, 6): bmin += 200; bmax += 200
         ops.append("suspenc %d %d %d %d %d %d %d %d %d %d" % (ss, rng.randint(1, 70), rng.randint(1, 50), rng.randrange(1 << 30), rng.randrange(3), ri, rr,
                                                              rng.randrange(1 << 30), bmin, bmax))
+    # marker handling under suspension: saved and skipped markers (full and truncating save limits, chosen by the seed), ICC
+    # profile and JFIF fields with the input cut after every byte of the header
+    for i in range(80 if big else 14):
+        nm = rng.randint(1, 4)
+        ms = []
+        for _ in range(nm):
+            ms += [rng.choice([0xFE, 0xE1, 0xE3, 0xED, 0xEE, 0xE0]), rng.choice([0, 1, 2, 5, 17, 37, 300, rng.randint(0, 1500)])]
+        ops.append("msusp %d %d %d %s" % (rng.randrange(1 << 30), rng.choice([0, 0, 200]), nm, " ".join(map(str, ms))))
     return ops
 
 
